@@ -905,7 +905,7 @@ def part_builtin_overlay(pc, binp, k, mode):
     pc.c.extra["builtin_overlay"] = dict(
         components=len(BS_COMPS), setting_paths_in_table=nrows, schema_leaf_paths=nleaf,
         documents=ndocs, single_write_documents=len(singles), pair_documents=len(pairs), larger_subset_documents=len(more) + len(big),
-        skipped_rejected_by_loader=len(skipped1) + len(skipped2), skipped_singles=len(skipped1), mismatching_documents=bad1 + bad2)
+        skipped_rejected_by_loader=len(skipped1) + len(skipped2), skipped_singles=len(skipped1), documents_differing_incl_known_findings=bad1 + bad2)
     if len(skipped1) > len(singles) // 15:
         # vacuity guard (after the subsets have been compared: violations observed there win over this)
         raise vlib.Inconclusive("%d of %d single-write documents of built-in components were rejected by the loader, e.g. %s: %s" % (
